@@ -62,6 +62,12 @@ CLAIMS = {
             '--no-default-features build of the harness on the corpora of C01/C03/C06/C13-C15 (JIT from caller-supplied executable memory) and requiring '
             'identical transcripts.',
             'Helpers that exist only with std are outside the comparison.'),
+    'C14': ('proof', 'Theorem C14_assemble_total: for every input string (any Unicode scalar values, any classification of the non-ASCII ones) the assembler '
+            'model returns Ok or Err -- never a panic (integer parsing, sign multiplication, operands[1], insn().unwrap()) and never fuel exhaustion (bounded time). '
+            'Model: asm_parser.rs hand-modelled with the combine 4.6 semantics (committed / uncommitted failure, attempt, optional, or, many, sep_by, not_followed_by); '
+            'assembler.rs regenerated on every run (instruction map by partial evaluation, insn, operands_tuple, encode, lddw second slot). '
+            'Correspondence on well-formed and malformed text (oversized literals in every operand position, huge registers, truncations, Unicode, mutations).',
+            'The parser model and the assemble_internal loop are hand-written: their tie is the correspondence (tie B).'),
     'C15': ('proof', 'Theorem C15_disassembly_is_specified: on every byte string in the property\'s domain the disassembler regenerated from '
             'disassembler.rs (operand renderers, the opcode table, the loop merging wide loads; format! translated through a model of Rust\'s {} and {:#x}) '
             'returns exactly the entries of an independently written specification (mnemonic table by ISA numbering, assembler syntax, merged 64-bit '
